@@ -162,6 +162,9 @@ def _long_vectors(k, pat):
     return vecs
 
 
+_SHARED = {}
+
+
 def _instance(layer, R, P, tier):
     from chempy import Substance
 
@@ -181,19 +184,27 @@ def _instance(layer, R, P, tier):
         comps = [formula_to_composition(k) for k in names]
         keys_ = sorted({k for c in comps for k in c})
         vecs = [[Fr(c.get(k, 0)) for k in keys_] for c in comps]
+        for c in comps:  # these mappings are ours now: editing them must not change what chempy parses later
+            c[0] = c.get(0, 0) + 7
+            c[999] = 1
         subs = None
     else:
         V = _vec(tier)
         names = ["S%d" % i for i in R + P]
         CK = (1, 2, 0, 3)
         vecs = [[Fr(x) for x in V[i]] + [Fr(0)] * (4 - len(V[i])) for i in R + P]
+        # the Substance objects are the caller's: one object per species, reused by every call of this process (the
+        # usual "table of substances"); balancing must leave them as they are
         subs = {}
         for nm, i in zip(names, R + P):
-            comp = {}
-            for ck, x in zip(CK, V[i]):
-                if x != 0:
-                    comp[ck] = x if isinstance(x, int) else float(x)
-            subs[nm] = Substance(nm, composition=comp)
+            if (tier, i) not in _SHARED:
+                comp = {}
+                for ck, x in zip(CK, V[i]):
+                    if x != 0:
+                        comp[ck] = x if isinstance(x, int) else float(x)
+                _SHARED[(tier, i)] = (Substance(nm, composition=comp), dict(comp))
+            obj, orig = _SHARED[(tier, i)]
+            subs[nm] = obj
     n = len(names)
     nR = len(R)
     A = [[vecs[j][row] * (-1 if j < nR else 1) for j in range(n)] for row in range(len(vecs[0]))]
@@ -241,6 +252,13 @@ def check_instance(res, layer, R, P, tier, modes=MODES, dup=False):
         except Exception as e:
             out = ("EXC " + type(e).__name__, str(e)[:60])
         v = []
+        if layer == "V":
+            for i in R + P:
+                obj, orig = _SHARED[(tier, i)]
+                if obj.composition != orig or list(obj.composition) != list(orig):
+                    v.append("callers-substance-modified")
+                    obj.composition = dict(orig)
+                    break
         if out[0] == "ok":
             x = [out[1].get(k, out[2].get(k)) for k in names]
             parametric = any(getattr(sympy.sympify(e), "free_symbols", None) for e in x)
